@@ -341,8 +341,33 @@ FLAT_FAMILIES = [
 FLAT_LENGTHS = [127, 129, 255, 257, 300, 1000, 32769, 65537, 70000]
 
 
+# chains that RECURSE per link (right-nested or prefix constructs): every such construct must be cut off by the nesting limit, however it is spelled
+CHAIN_FAMILIES = [
+    ('string-prefix pattern chain', 'fn f(x) { case x { ', '"a" <> ', 'r -> 1 } }\n'), ('prefix minus chain', 'fn f() { ', '- ', '1 }\n'), ('prefix bang chain', 'fn f() { ', '!', 'x }\n'),
+    ('list nest', 'fn f() { ', '[', ' }\n'), ('tuple nest', 'fn f() { ', '#(', ' }\n'), ('block nest', 'fn f() { ', '{ ', ' }\n'), ('case nest', 'fn f() { ', 'case x { a -> ', ' }\n'),
+    ('call-argument nest', 'fn f() { ', 'g(', ' }\n'), ('lambda nest', 'fn f() { ', 'fn() { ', ' }\n'), ('tuple type nest', 'type A = ', '#(', '\n'), ('fn type nest', 'type A = ', 'fn(', '\n'),
+    ('type application nest', 'type A = ', 'B(', '\n'), ('list pattern nest', 'fn f(x) { case x { ', '[', ' -> 1 } }\n'), ('tuple pattern nest', 'fn f(x) { case x { ', '#(', ' -> 1 } }\n'),
+    ('constructor pattern nest', 'fn f(x) { case x { ', 'C(', ' -> 1 } }\n'), ('use chain', 'fn f() { ', 'use a <- g ', '1 }\n'), ('let-block chain', 'fn f() { ', 'let a = { ', '1 }\n'),
+    ('constant list nest', 'const a = ', '[', '\n'), ('constant tuple nest', 'const a = ', '#(', '\n'),
+]
+CHAIN_LENGTHS = [3000, 200000]
+
+
 def flat_runs(chk, oracle, props):
     n = 0; bad = 0
+    for name, pre, unit, suf in CHAIN_FAMILIES:
+        for k in CHAIN_LENGTHS:
+            text = pre + unit * k + suf
+            r = oracle.ask('roundtrip', text)
+            n += 1
+            ok = isinstance(r, dict) and r.get('text_ok') is True and r.get('contiguous') is True
+            if not ok:
+                bad += 1
+                died = not isinstance(r, dict) or 'died' in r or 'panic' in r
+                what = 'C02: the parser takes the process down / panics' if died else 'C01: the leaf tokens of the tree are not the text'
+                if bad <= 3 and what[:3] in props:
+                    chk.violation('chain:' + name.replace(' ', '-'), 'pumped', '%s on a %s of %d links (%r ... %d bytes): %s' % (what, name, k, text[:50], len(text), str(r)[:200]),
+                                  {'kind': 'flat-run', 'family': name, 'count': k, 'unit': unit, 'sep': '', 'prefix': pre, 'suffix': suf}, confirmed=True)
     for name, unit, sep, pre, suf in FLAT_FAMILIES:
         for k in FLAT_LENGTHS:
             if name == 'operator chain' and k > 1000:
@@ -358,7 +383,7 @@ def flat_runs(chk, oracle, props):
                     if what[:3] in props:
                         chk.violation('long-run:' + name.replace(' ', '-'), 'pumped', '%s on a flat run of %d %s (%r ... %d bytes): %s' % (what, k, name, text[:40], len(text), str(r)[:200]),
                                       {'kind': 'flat-run', 'family': name, 'count': k, 'unit': unit, 'sep': sep, 'prefix': pre, 'suffix': suf}, confirmed=True)
-    chk.log('long flat runs: %d texts (%d families x lengths around 2^7, 2^8, 2^15, 2^16) parsed natively, %d not lossless' % (n, len(FLAT_FAMILIES), bad))
+    chk.log('long runs: %d texts (%d flat families x lengths around 2^7, 2^8, 2^15, 2^16; %d recursive chain families x %s links) parsed natively, %d not lossless / fatal' % (n, len(FLAT_FAMILIES), len(CHAIN_FAMILIES), CHAIN_LENGTHS, bad))
     if not bad:
         chk.validated += n
     return n, bad
